@@ -586,7 +586,11 @@ static int _bisect_forward_serialno(OggVorbis_File *vf,
        starts with a raw seek */
     pcmoffset = _initial_pcmoffset(vf,&vi);
 
-    ret=_bisect_forward_serialno(vf,next,vf->offset,end,endgran,endserial,
+    /* ...so search on from the end of this link's headers, not from
+       wherever that page ended: for a link without any audio page the
+       page consumed is the first page of the NEXT link, and a search
+       that starts behind it never sees that link begin */
+    ret=_bisect_forward_serialno(vf,next,dataoffset,end,endgran,endserial,
                                  next_serialno_list,next_serialnos,m+1);
 
     if(next_serialno_list)_ogg_free(next_serialno_list);
